@@ -26,7 +26,9 @@ diag_solver_real = partial(e7b.rule_diagonal_solver, complex_energies=False)  # 
 
 # ideal DSL semantics tied to the code: shared by the algorithm-level properties
 CORE = [e1b.rule_projection_pairs, e1b.rule_scope_flags, e2c.rule_product_by_order, e2c.rule_adjoint_fill, e2c.rule_cauchy_wiring,
-        e4.rule_value_preserving, tv_shipped, e9.rule_runtime_support, e11.rule_helpers]
+        e4.rule_value_preserving, tv_shipped, e9.rule_runtime_support, e11.rule_helpers,
+        # what the series H *is*: input normalisation of symbolic / list / dict Hamiltonians (Taylor coefficients, order keys)
+        e2b.rule_taylor, e2b.rule_key_normalisation]
 
 PROPS: dict[str, dict] = {}
 
@@ -124,8 +126,10 @@ prop(
 )
 
 prop(
-    "C09", level="translation_validation", selftest=["algorithm_parsing"],
-    rules=[e9.rule_translation, e9.rule_translation_corpus, e9.rule_runtime_support, wf_all, e2c.rule_adjoint_fill, e8.rule_implicit_wiring],
+    "C09", level="translation_validation", selftest=["algorithm_parsing", "series"],
+    rules=[e9.rule_translation, e9.rule_translation_corpus, e9.rule_runtime_support, wf_all, e2c.rule_adjoint_fill, e8.rule_implicit_wiring,
+           e2c.rule_cauchy_wiring, e2c.rule_product_by_order,  # declared products and their Hermiticity shortcut
+           e9.rule_deletion_safe],
     explanation=(
         "The repository's own _parse_algorithm is queried (subprocess, tree under analysis) for the generated "
         "series_eval ASTs of `main`, `nonhermitian` and the documented example; each is interpreted abstractly per "
@@ -138,9 +142,9 @@ prop(
 )
 
 prop(
-    "C10", level="other", selftest=["series", "block_diagonalization"],
+    "C10", level="other", selftest=["series", "block_diagonalization", "algorithm_parsing"],
     rules=[e4.rule_no_inplace_mutation, e4.rule_closure_state, e3.rule_memo_owner, e3.rule_typestate,
-           e7b.rule_shared_eigenvalue_check, e4.rule_loop_carried_state],
+           e7b.rule_shared_eigenvalue_check, e4.rule_loop_carried_state, e9.rule_deletion_safe],
     explanation=(
         "Structural cause of history independence: evals are pure and the memo is disciplined. Flow-sensitive "
         "freshness analysis over every function of the evaluation modules (in-place sinks: augmented assignment, item "
@@ -175,11 +179,14 @@ prop(
 
 prop(
     "C13", level="other", selftest=["series", "block_diagonalization"],
-    rules=[e2c.rule_product_by_order, wf_all, e2b.rule_key_normalisation, e2b.rule_order_preserving_evals, e2b.rule_taylor],
+    rules=[e2c.rule_product_by_order, wf_all, e2b.rule_key_normalisation, e2b.rule_order_preserving_evals, e2b.rule_taylor,
+           e2c.rule_cauchy_wiring, e7b.rule_diagonal_solver, e1b.rule_projection_pairs],
     explanation=(
         "Narrow claim: order components are handled uniformly and split exactly (product_by_order rules), every DSL "
         "summand is a rational multiple of exactly one series/product reference under linear scope functions (element n "
-        "is homogeneous of degree n), list / symbolic keys are normalised so that the k-th perturbation maps to the "
+        "is homogeneous of degree n); the scope functions are linear in the element: the built-in Sylvester solver returns "
+        "Y (.) K on every path and the `zero` sentinel only for an absent right-hand side (no absolute threshold on a "
+        "computed value), the selection closures multiply by a mask; list / symbolic keys are normalised so that the k-th perturbation maps to the "
         "k-th unit tuple and the tuple is built from the same `symbols` sequence that names the dimensions. The "
         "relations between outputs of related calls are not evaluated."),
 )
